@@ -23,7 +23,8 @@ PROP = {'drive': ['Total'] + ['Total' + g for g in _GROUPS],
                        'C02_cmap_no_panic', 'C02_cmap_cost_partial', 'C02_cmap_agrees', 'C02_lazy_safe_cmap_get',
                        'C02_cmap0_no_panic', 'C02_lazy_safe_cmap0', 'C02_cmap6_no_panic', 'C02_cmap6_cost', 'C02_cmap06_agree',
                        'C02_coverage_no_panic', 'C02_coverage_cost', 'C02_classdef_no_panic', 'C02_classdef_cost_partial',
-                       'C02_classdef_cost_fails', 'C02_classdef_repaired_cost', 'C02_otl_agree', 'C02_gdef_concrete_no_panic'],
+                       'C02_classdef_cost_fails', 'C02_classdef_repaired_cost', 'C02_otl_agree', 'C02_gdef_concrete_no_panic',
+                       'C02_gdef_unrepaired_alias', 'C02_gdef_alias_cached'],
  'areas': [('total', 3000, 40000)],
  'rule': 'distinct case lines (decoder, bytes); non-trivial = input of at least 4 bytes',
  'partial': [
@@ -43,10 +44,11 @@ PROP = {'drive': ['Total'] + ['Total' + g for g in _GROUPS],
      'the remaining accessors (Font.Widths/GlyphBBoxes/GlyphName/..., re-encoding, GetBest) are only searched by the fuzz stream',
      'wall-time and runtime.MemStats bounds are checked per case against generous constants '
      '(alloc <= 4096*len + 16 MiB, time <= 50 us*len + 3 s, 10 s time-out); they calibrate, they do not prove',
-     'open cost findings (replayed on every run from known_findings.jsonl): gdef mark-glyph-set aliasing (#37; patch 04 offered), '
+     'open cost findings (replayed on every run from known_findings.jsonl): gdef distinct 10-byte coverage tables per set (rest of #37), '
      'classdef format 2 backward ranges (#36; patch 03 offered), context-rule aliasing (#27), name record aliasing (new), '
      'lookup-list aliasing (new); repaired under this property: kern pair count (#35), glyph-name count (Font.GlyphName panic), '
-     'CFF Private DICT size (#40, patch 01), Type 2 operation budget (#26, patch 02), Format0.Lookup negative rune (new, patch 05)'],
+     'CFF Private DICT size (#40, patch 01), Type 2 operation budget (#26, patch 02), gdef aliased mark-glyph-set offsets (#37, patch 04), '
+     'Format0.Lookup negative rune (new, patch 05)'],
  'modelled_not_verified': [
      'parser.Parser is taken as a plain byte view of an in-memory reader (theorem C17); ReadBytes(n>1024) is the only panic site and every modelled call has a constant argument',
      'sort.Slice in header.Read is re-implemented as List.mergeSort and charged n*(log2 n+1) steps',
